@@ -17,7 +17,7 @@ Capacity ==
       p \in Pools, f \in UNION {[1..k -> Fails] : k \in 1..GBurst}}
 
 MOps == {"fullA", "fullB", "incrNew", "incrRepl", "incrSal", "removeHas", "removeAbsent", "removeNone", "removeTwo",
-         "clear", "model2", "model3", "model4", "model9", "badfull", "badincr"}
+         "clear", "model1", "model2", "model3", "model4", "model9", "badfull", "badincr"}
 Manage == {[min |-> 1, max |-> 2, ops |-> s] : s \in UNION {[1..k -> MOps] : k \in 1..GOps}}
 
 UKinds == {"fullSame", "fullOther", "incrRepl", "incrKeepSal", "incrNew", "remove", "removeEnds", "clear"}
